@@ -319,6 +319,25 @@ func instrumentSched(fset *token.FileSet, file *ast.File, info *types.Info) bool
 					&ast.FuncLit{Type: &ast.FuncType{Params: &ast.FieldList{}}, Body: &ast.BlockStmt{List: []ast.Stmt{&ast.ExprStmt{X: inner}}}}},
 			}})
 			repl = blk
+		} else if d, ok := st.(*ast.DeferStmt); ok && !done[st] {
+			// defer close(ch) / defer wg.Done() ...: the operation is visible when it runs
+			if k := syncKind(&ast.ExprStmt{X: d.Call}, info); k != "" {
+				done[st] = true
+				blk := &ast.BlockStmt{}
+				call := d.Call
+				if id, isIdent := call.Fun.(*ast.Ident); isIdent && id.Name == "close" && len(call.Args) == 1 {
+					// the argument of a deferred call is evaluated at the defer statement
+					blk.List = append(blk.List, &ast.AssignStmt{Lhs: []ast.Expr{ast.NewIdent("__vd0")}, Tok: token.DEFINE, Rhs: []ast.Expr{call.Args[0]}})
+					call = &ast.CallExpr{Fun: ast.NewIdent("close"), Args: []ast.Expr{ast.NewIdent("__vd0")}}
+				}
+				inner := &ast.ExprStmt{X: call}
+				done[inner] = true
+				nd := &ast.DeferStmt{Call: &ast.CallExpr{Fun: &ast.FuncLit{Type: &ast.FuncType{Params: &ast.FieldList{}},
+					Body: &ast.BlockStmt{List: []ast.Stmt{pointCall(k, posOf(st)), inner}}}}}
+				done[nd] = true
+				blk.List = append(blk.List, nd)
+				repl = blk
+			}
 		} else if k := syncKind(st, info); k != "" && !done[st] {
 			before = pointCall(k, posOf(st))
 		}
